@@ -80,19 +80,18 @@ class BV:
 
 
 def crc_step_ref(state, data, poly, width, reflected, nbits=8):
-    """transformer of one CRC update over GF(2) forms: state (BV width) and data (BV nbits)"""
-    if reflected:
-        x = state.xor(data.zext(width))
-        for _ in range(nbits):
-            b = x.bits[0]
-            x = x.lshr(1)
-            x = x.xor(BV.const(width, poly).scale(b))
-        return x
-    x = state.xor(data.zext(width).shl(width - nbits))
-    for _ in range(nbits):
-        b = x.bits[width - 1]
-        x = x.shl(1)
-        x = x.xor(BV.const(width, poly).scale(b))
+    """transformer of one CRC update over GF(2) forms, straight from the
+    bit-serial definition: for every data bit, feedback = (bit shifted out of
+    the register) XOR (data bit); shift; XOR the polynomial where feedback"""
+    x = state
+    P = BV.const(width, poly)
+    for k in range(nbits):
+        if reflected:
+            fb = x.bits[0] ^ data.bits[k]
+            x = x.lshr(1).xor(P.scale(fb))
+        else:
+            fb = x.bits[width - 1] ^ data.bits[nbits - 1 - k]
+            x = x.shl(1).xor(P.scale(fb))
     return x
 
 
@@ -183,7 +182,7 @@ class BlockEval:
                 elif ca is not None:
                     self.env[key] = b.and_const(ca)
                 else:
-                    raise AnalysisBroken('nonlinear AND of two symbolic values at %s' % i.where())
+                    self.env[key] = self.fresh(w, 'nonlinear-and:%s' % (i.name or i.id))
             elif op == 'or':
                 # OR of values with disjoint supports is XOR
                 if all((not x) or (not y) for x, y in zip(a.bits, b.bits)):
@@ -191,11 +190,16 @@ class BlockEval:
                 elif cb is not None and all((not x) for j, x in enumerate(a.bits) if (cb >> j) & 1):
                     self.env[key] = a.xor(b)
                 else:
-                    raise AnalysisBroken('nonlinear OR of overlapping symbolic values at %s' % i.where())
+                    self.env[key] = self.fresh(w, 'nonlinear-or:%s' % (i.name or i.id))
             elif op in ('shl', 'lshr', 'ashr'):
                 if cb is None:
-                    raise AnalysisBroken('shift by a symbolic amount at %s' % i.where())
+                    # not linear: opaque value (a CRC register depending on it fails the comparison)
+                    self.env[key] = self.fresh(w, 'symshift:%s' % (i.name or i.id))
+                    return
                 self.env[key] = getattr(a, op)(cb) if cb < w else BV.const(w, 0)
+            elif op == 'add' and all((not x) or (not y) for x, y in zip(a.bits, b.bits)):
+                # no position where both operands can be 1: no carries, ADD == XOR
+                self.env[key] = a.xor(b)
             else:
                 # add/sub/mul of symbolic values: not linear over GF(2) -> opaque symbol (allowed for
                 # counters/pointers; a CRC state depending on it is detected by the comparison)
